@@ -77,8 +77,12 @@ def codec_tie(ctx, prof, pfile, wd):
         if t[0] == "Z":
             sizes[t[1]] = int(t[2])
         elif t[0] == "W":
-            cases.append((f"QW {t[1]}", f"OBytes (hx \"{t[2]}\")"))
-            kinds["write"] += 1
+            if t[2].startswith("ERR "):
+                cases.append((f"QW {t[1]}", f"OWErr {t[2][4:]}"))
+                kinds["write:refused"] += 1
+            else:
+                cases.append((f"QW {t[1]}", f"OBytes (hx \"{t[2]}\")"))
+                kinds["write"] += 1
             distinct.add(t[2])
         elif t[0] == "N":
             cases.append((f"QN {t[1]}", f"ORes ({t[2]})"))
@@ -124,9 +128,80 @@ def codec_tie(ctx, prof, pfile, wd):
     ctx.add_samples([{"query": q[:600], "observed": o[:600]} for q, o in cases[:1] + cases[len(cases) // 2: len(cases) // 2 + 1]])
 
 
+# ---------------------------------------------------------------------------------- assembly text, instruction level
+AASM_IMPORTS = ("From Coq Require Import String.\nFrom Aelys Require Import Model.Avbc Model.AasmTypes Extracted.AasmTable Model.Aasm.\nOpen Scope N_scope.\n"
+                "Definition aobs_eqb (a b : string * option (list N)) : bool := String.eqb (fst a) (fst b) && "
+                "match snd a, snd b with Some x, Some y => list_eqbN x y | None, None => true | _, _ => false end.\n"
+                "Definition text_eqb (a b : string * option (list N)) : bool := String.eqb (fst a) (fst b).")
+
+
+def aasm_instr_tie(ctx, prof):
+    """every opcode byte 0..255 x fixed + random operand bytes: the real disassembly line must be the model's
+    rendering and the real reassembly must be the model's (jumps: text only, labels are resolved per function)"""
+    ok, paths, log = vlib.harness_build(["hx_avbc"], profile=prof)
+    if not ok:
+        return
+    rc, out = vlib.sh([paths["hx_avbc"], "--mode", "aasm", "--seed", str(ctx.seed), "--per-op", "3" if ctx.tier == "quick" else "40"], timeout=600)
+    if rc != 0:
+        ctx.violation("hx_avbc-crash:aasm", "disassemble/assemble of a single instruction crashed the harness", {"output_tail": out[-1500:]})
+        return
+    full, text_only, strs = [], [], []
+    for line in out.splitlines():
+        t = line.split("\t")
+        if t[0] == "S" and len(t) >= 4:
+            lst = lambda x: "[" + "; ".join(x.split(";")) + "]" if x else "[]"
+            back = "None" if t[3] in ("ERR", "NONE") else f"(Some {lst(t[3])})"
+            strs.append((lst(t[1]), f"({lst(t[2])}, {back})"))
+            continue
+        if t[0] != "A" or len(t) < 4:
+            continue
+        w, txt, re_ = t[1], t[2], t[3]
+        if re_ == "PANIC":
+            ctx.violation("aasm:assemble-panics", "assemble panicked on the disassembly of one instruction", {"word": w, "text": txt})
+            continue
+        if txt.startswith(".word"):
+            txt = ".word"
+        obs_re = "(@None (list N))" if re_ == "ERR" else "(Some [" + "; ".join(re_.split(";")) + "])"
+        q = (w, f"(\"{txt}\"%string, {obs_re})")
+        (text_only if txt.startswith("Jump") else full).append(q)
+    ctx.cov["aasm_instruction_cases"] = {"words": len(full) + len(text_only), "jumps_text_only": len(text_only),
+                                         "not_opcodes": sum(1 for _, o in full if ".word" in o)}
+    for cases, eqb, what in ((full, "aobs_eqb", "text+reassembly"), (text_only, "text_eqb", "text")):
+        fails, err = vlib.coq_eval_cases("c08a" + prof, AASM_IMPORTS, "(fun w => (render_line w, reassemble w))", eqb, cases, shard=400, timeout=600)
+        if err:
+            ctx.broken.append("correspondence C08 (aasm instruction table): model evaluation failed")
+            ctx.log(err[-2000:])
+        for k in fails[:3]:
+            w, o = cases[k]
+            mo, _ = vlib.coq_eval_terms("c08a", AASM_IMPORTS, [f"(render_line {w}, reassemble {w})"])
+            ctx.violation("aasm:instruction-table-mismatch", f"disassembler/assembler and the table model disagree on one instruction ({what})",
+                          {"word": int(w), "implementation": o, "model": mo[0] if mo else None})
+        if fails:
+            ctx.broken.append(f"correspondence C08 (aasm instruction, {what}): {len(fails)} of {len(cases)} words differ")
+    # string literals: escape_string's text and the name read back by the assembler
+    simp = ("From Aelys Require Import Model.Avbc Extracted.AasmEscapes Model.AasmStr.\nOpen Scope N_scope.\n"
+            "Definition sobs_eqb (a b : list N * option (list N)) : bool := list_eqbN (fst a) (fst b) && "
+            "match snd a, snd b with Some x, Some y => list_eqbN x y | None, None => true | _, _ => false end.")
+    fails, err = vlib.coq_eval_cases("c08s" + prof, simp,
+                                     "(fun s => (escape s, match unescape (escape s ++ [QUOTE]) with Some (x, _) => Some x | None => None end))",
+                                     "sobs_eqb", strs, shard=400, timeout=600)
+    if err:
+        ctx.broken.append("correspondence C08 (aasm string literals): model evaluation failed")
+        ctx.log(err[-2000:])
+    for k in fails[:3]:
+        ctx.violation("aasm:string-literal-mismatch", "escape_string / read_string and the model disagree on a string",
+                      {"code_points": strs[k][0], "implementation(text, read back)": strs[k][1]})
+    if fails:
+        ctx.broken.append(f"correspondence C08 (aasm string literals): {len(fails)} of {len(strs)} strings differ")
+    ctx.cov["aasm_instruction_cases"]["strings"] = len(strs)
+    ctx.cov["evaluations"] += len(full) + len(text_only) + len(strs)
+    ctx.cov["distinct_nontrivial"] += len(full) + len(text_only) + len(strs)
+
+
 # ---------------------------------------------------------------------------------- observational tie
 def alias_missing(prog, detail):
-    m = re.search(r"needs\s+std\.\w+\s+as\s+(\w+)", prog)
+    """open finding KF-C08-2: a *script* module imported under an alias (std modules were repaired by 5e6a7be)"""
+    m = re.search(r"needs\s+(?!std\.)[\w.]+\s+as\s+(\w+)", prog)
     return bool(m) and ("module not found: '%s'" % m.group(1)) in detail
 
 
@@ -266,6 +341,36 @@ def cli_sample(ctx, progs, clean, wd, limit):
     ctx.cov["evaluations"] += 3 * res["compared"]
 
 
+def multi_file_cases(ctx, wd):
+    """corpus/C08/<dir>/main.aelys with its modules: source run vs compiled + reloaded, through the CLI"""
+    cli = cli_build(ctx)
+    cd = os.path.join(vlib.VERIF, "corpus", "C08")
+    if not cli or not os.path.isdir(cd):
+        return
+    import shutil
+    for name in sorted(os.listdir(cd)):
+        src = os.path.join(cd, name)
+        if not os.path.isdir(src) or not os.path.exists(os.path.join(src, "main.aelys")):
+            continue
+        dst = os.path.join(wd, "mf_" + name)
+        shutil.rmtree(dst, ignore_errors=True)
+        shutil.copytree(src, dst)
+
+        def run(args):
+            q = subprocess.run([cli] + args, stdout=subprocess.PIPE, stderr=subprocess.PIPE, timeout=60, cwd=dst)
+            return q.returncode, q.stdout.decode("utf-8", "replace"), q.stderr.decode("utf-8", "replace")
+        for opt in (0, 2):
+            base = run(["run", f"-O{opt}", "main.aelys"])
+            c = run(["compile", f"-O{opt}", "main.aelys", "-o", f"main{opt}.avbc"])
+            r = run(["run", f"main{opt}.avbc"]) if c[0] == 0 else c
+            ctx.cov["evaluations"] += 2
+            if r[:2] != base[:2]:
+                prog = open(os.path.join(src, "main.aelys")).read()
+                sig = "avbc:module-alias-not-resolvable" if alias_missing(prog, r[2]) else f"cli:avbc:multi-file-differs:{name}"
+                ctx.violation(sig, "a multi-file program behaves differently after `aelys compile` + `aelys run file.avbc`",
+                              {"case": name, "opt": opt, "run_source": base, "reloaded": r, "program": prog})
+
+
 def run(ctx):
     ctx.level = "proof"
     ctx.cov["trusted_base"] = TRUSTED
@@ -273,11 +378,19 @@ def run(ctx):
         "the codec model is the code: checked by the contract tie on compiler outputs, hand-built Functions, byte mutants and table sizes at the limits",
         "the theorems carry the codec half only; behaviour preservation of the saved program and the assembly-text route are explored, not proved",
     ]
-    proved = ctx.prove("C08", extracted=["AvbcLayout", "ValueConsts"])
+    proved = ctx.prove("C08", extracted=["AvbcLayout", "ValueConsts", "AasmTable", "AasmEscapes"])
+    try:
+        import json as _json
+        w = _json.load(open(os.path.join(vlib.COQ, "Extracted", "AvbcLayout.warnings.json")))
+    except Exception:
+        w = []
+    ctx.cov["translator_shape_warnings"] = w      # code written differently from what the model's author read; the ties decide
+    if w:
+        ctx.log("translator: shape drift (not an alarm): " + "; ".join(w)[:300])
     if ctx.tier == "thorough" and proved:
         ctx.coqchk("C08")
-    ctx.cov["refuted_lemmas"] = ["C08_write_truncates_refuted", "C08_read_back_fails_refuted"]
-    ok, out = vlib.coq_make(["Base/CaseCheck.vo", "Model/AvbcObs.vo"])
+    ctx.cov["refuted_lemmas"] = []
+    ok, out = vlib.coq_make(["Base/CaseCheck.vo", "Model/AvbcObs.vo", "Model/Aasm.vo", "Model/AasmStr.vo"])
     wd = workdir(ctx)
     quick = ctx.tier == "quick"
     corpus, progs = programs(ctx, 30 if quick else 300)
@@ -289,6 +402,7 @@ def run(ctx):
         if ok:
             ctx.log(f"codec tie ({prof})")
             codec_tie(ctx, prof, pfile, wd)
+            aasm_instr_tie(ctx, prof)
         ctx.log(f"observational tie ({prof}), {len(progs)} programs")
         c = observational(ctx, prof, pfile, progs, wd, len(corpus))
         if prof == "dev":
@@ -296,6 +410,7 @@ def run(ctx):
     if not ok:
         ctx.broken.append("coq: Model/AvbcObs.vo does not build (tie cannot be evaluated)")
         ctx.log(out[-2000:])
+    multi_file_cases(ctx, wd)
     ctx.log("cli sample")
     cli_sample(ctx, progs, clean, wd, 24 if quick else 150)
     ctx.cov["input_distribution"] = (
